@@ -21,6 +21,8 @@ FSqrt(a)    == Undef
 FCbrt(a)    == Undef
 FExp(a)     == Undef
 FLn(a)      == Undef
+FExpm1(a)   == Undef     \* exp(a) - 1 without cancellation
+FLog1p(a)   == Undef     \* ln(1 + a) without cancellation
 FLog10(a)   == Undef
 FPow(a, b)  == Undef
 FSin(a)     == Undef
